@@ -3,6 +3,7 @@
 package rawkv
 
 import (
+	"github.com/pingcap/kvproto/pkg/kvrpcpb"
 	"github.com/tikv/client-go/v2/internal/client"
 	"github.com/tikv/client-go/v2/internal/locate"
 	pd "github.com/tikv/pd/client"
@@ -11,7 +12,14 @@ import (
 // NewClientForVerif builds a raw client the way rawkv_test.go does (fields set directly):
 // a region cache over the given PD client and an arbitrary RPC client (the harness' gate).
 func NewClientForVerif(pdCli pd.Client, rpc client.Client) *Client {
+	return NewClientForVerifAPI(kvrpcpb.APIVersion_V1, pdCli, rpc)
+}
+
+// NewClientForVerifAPI: the same for a given API version; for API v2 pdCli is the codec PD client
+// and rpc applies the codec around the wire, as NewClientWithOpts arranges it.
+func NewClientForVerifAPI(api kvrpcpb.APIVersion, pdCli pd.Client, rpc client.Client) *Client {
 	return &Client{
+		apiVersion:  api,
 		clusterID:   0,
 		regionCache: locate.NewRegionCache(pdCli),
 		rpcClient:   rpc,
